@@ -12,6 +12,9 @@ CLAIMED = {
  'C03': dict(technique='Lean 4 theorems (strict total comparator, uniqueness of the sorted order, mfnd = least monotone function, prune = sublevel) + differential correspondence incl. TBB builds + Python cone-filtration oracle',
              text='The comparator is proved a strict total order putting faces first, two sorted permutations are proved equal (so any sort/schedule gives one order), the model order is proved a sorted permutation, make_filtration_non_decreasing is proved to yield the least monotone function above the input and pruning the sublevel complex; gvdriver ST and the real tree (5 option sets, with and without GUDHI_USE_TBB at several thread counts, complexes large enough for parallel_sort to split) are compared on the filtration sequence, flags and values; the extended filtration is compared against the model and a closed-form Python spec.',
              note='Lean kernel + standard axioms; sort routines trusted to return a sorted permutation; floating point outside the model (inputs exact in double); extended-filtration closed form not a Lean theorem (partial)', ref='§5 C03'),
+ 'C14': dict(technique='Lean 4 proof of the 1D state machine against the rank invariant (run_spec) + executable cubical/reduction specification for the rectangle + differential correspondence (exhaustive weak orders) + Python elder-rule oracle',
+             text='The goto state machine of the 1D routine is modelled label by label in Lean and proved for every finite sequence to emit exactly the bars of the H0 rank invariant (run_spec, surgery lemmas); gvdriver C14 runs that model against the real routine in four call forms in emission order, exhaustively over every weak order up to length 6/7. The rectangle routine is compared, for every weak order of small grids and random grids, with the executable specification (lower-star cubical complex reduced by the proved reference reduction); there is no Lean model of fill_and_pair yet (partial).',
+             note='Lean kernel + standard axioms; integer-valued inputs; 2D part is spec-level (cert_unique backs the reference reduction), no branch-level model of the rectangle routine', ref='§5 C14'),
 }
 ALL = ['C%02d' % i for i in range(1, 21)]
 checks = []
